@@ -93,9 +93,13 @@ def run(ctx):
     runs, tid = [], 1000
     for reg in (["p", 0], ["e", 0]):
         for w in names:
-            prog = [{"k": "Hadamard", "r": [["e", 0]], "c": None}, {"k": "CNOT", "r": [["e", 0], ["p", 0]], "c": None},
-                    {"k": "OneQubitGateWrapper", "r": [reg], "c": None, "w": w}]
-            circuit = cz.build_circuit(1, 1, 0, prog)
-            t, tid = cz.compile_traces(circuit, tid, rng, settings=(1,), meta={"kind": "order", "wrapper": w, "reg": reg})
-            runs += t
+            # on the Choi state as prepared (generating rows XX, ZZ) and after a Phase gate on the wrapped register (rows
+            # with a Y there): a gate rule that is only wrong on some Pauli letters needs the right rows to show
+            for pre in ([], [{"k": "Phase", "r": [reg], "c": None}]):
+                prog = [{"k": "Hadamard", "r": [["e", 0]], "c": None}, {"k": "CNOT", "r": [["e", 0], ["p", 0]], "c": None}] + pre + \
+                       [{"k": "OneQubitGateWrapper", "r": [reg], "c": None, "w": w}]
+                circuit = cz.build_circuit(1, 1, 0, prog)
+                t, tid = cz.compile_traces(circuit, tid, rng, settings=(1,),
+                                           meta={"kind": "order", "wrapper": w, "reg": reg, "phase_first": bool(pre)})
+                runs += t
     ctx.judge("Trace_CircuitRun", runs, label="J: wrapper order convention in both backends (Choi state)")
